@@ -384,6 +384,24 @@ def strided_view(x, how):
     return v
 
 
+import contextlib as _contextlib
+
+
+@_contextlib.contextmanager
+def strict_fp(on=True):
+    """the caller's floating-point error state and warning filters are the caller's business: a program that runs with
+    `np.errstate(divide='raise', invalid='raise')` and RuntimeWarnings promoted to errors must get the same results (the
+    floor is applied BEFORE the logarithm: log(0) is never evaluated on silence)"""
+    import warnings
+    import numpy as np
+    if not on:
+        yield
+        return
+    with np.errstate(divide="raise", invalid="raise"), warnings.catch_warnings():
+        warnings.simplefilter("error", RuntimeWarning)
+        yield
+
+
 class NotCopyable(Exception):
     pass
 
